@@ -492,12 +492,12 @@ func (p *Parser) parseBuffer(buf []byte, last bool) (err error) {
 				if digitMap[b] != numDigit {
 					break
 				}
-				p.num.Frac = p.num.Frac*10 + uint64(b-'0')
-				p.num.Div *= 10.0
-				if gen.BigLimit <= p.num.Div {
-					p.num.FillBig()
+				if gen.BigLimit < p.num.Div { // no room for another digit, AddFrac switches to text
+					p.num.AddFrac(b)
 					break
 				}
+				p.num.Frac = p.num.Frac*10 + uint64(b-'0')
+				p.num.Div *= 10.0
 			}
 			off += i
 			if digitMap[b] == numDigit {
